@@ -512,3 +512,25 @@ def box_with_crossings(r):
             if r.random() < 0.3:
                 g[y][x] = "+"
     return "\n".join("".join(row).rstrip() for row in g)
+
+
+def between_diagonals(r, block):
+    """two long parallel diagonals with the block between them, touching neither, inside both their bounding boxes; returns
+    (text, column, row) of the block's top-left cell.  (with x0 = 1: the first diagonal passes column row + 1, the second one
+    column row + 1 + d)"""
+    bw, bh = max(len(b) for b in block), len(block)
+    # (one blank cell all around the block, the rows above and below included)
+    d = bw + bh + 4 + r.randint(0, 2)
+    L = d + bw + 1 + r.randint(0, 2)
+    r0 = bw + 2
+    c0 = 1 + d
+    W = 1 + d + L + 1
+    g = [[" "] * W for _ in range(L)]
+    for i in range(L):
+        g[i][1 + i] = "\\"
+        g[i][1 + d + i] = "\\"
+    for j, row in enumerate(block):
+        for i, ch in enumerate(row):
+            if ch != " ":
+                g[r0 + j][c0 + i] = ch
+    return "\n".join("".join(row).rstrip() for row in g), c0, r0
